@@ -4,6 +4,7 @@ package main
 
 import (
 	"bytes"
+	"os"
 	"net/http"
 	"net/http/httptest"
 	"sort"
@@ -19,6 +20,7 @@ import (
 	"github.com/miekg/dns"
 	"github.com/semihalev/sdns/config"
 	"github.com/semihalev/sdns/internal/verif/srvh"
+	"github.com/semihalev/sdns/middleware/cache"
 	"github.com/semihalev/sdns/internal/verif/vlib"
 	"github.com/semihalev/sdns/server"
 )
@@ -102,13 +104,39 @@ func stubRespond(req *dns.Msg) *dns.Msg {
 		m.Answer = bigAnswers(q.Name, n)
 		return m
 	}
+	if beh := behOf(q.Name); strings.HasPrefix(beh, "v6") {
+		// dns64: no AAAA here; the A side (asked by dns64's internal sub-query) decides
+		soa, _ := dns.NewRR("z.c10. 60 IN SOA ns.z.c10. h.z.c10. 1 2 3 4 60")
+		switch {
+		case q.Qtype == dns.TypeA && beh == "v6ok":
+			m.Answer = []dns.RR{&dns.A{Hdr: dns.RR_Header{Name: q.Name, Rrtype: dns.TypeA, Class: dns.ClassINET, Ttl: 300}, A: net.IPv4(93, 184, 216, 34)}}
+		case q.Qtype == dns.TypeA && beh == "v6nx":
+			m.Rcode = dns.RcodeNameError
+			m.Ns = []dns.RR{soa}
+		case q.Qtype == dns.TypeA && beh == "v6sf":
+			m.Rcode = dns.RcodeServerFailure
+		default:
+			m.Ns = []dns.RR{soa}
+		}
+		return m
+	}
+	if behOf(q.Name) == "cn" {
+		// an alias: only the CNAME comes back; the cache chases the target itself
+		m.Answer = []dns.RR{&dns.CNAME{Hdr: dns.RR_Header{Name: q.Name, Rrtype: dns.TypeCNAME, Class: dns.ClassINET, Ttl: 300}, Target: cnTarget(q.Name)}}
+		return m
+	}
 	m.Answer = []dns.RR{&dns.TXT{Hdr: dns.RR_Header{Name: q.Name, Rrtype: dns.TypeTXT, Class: dns.ClassINET, Ttl: 300}, Txt: txtFor(q.Name)}}
 	return m
 }
 
+func cnTarget(qname string) string {
+	first := strings.SplitN(strings.ToLower(qname), ".", 2)[0]
+	return "t-" + strings.TrimSuffix(first, "-cn") + "-ok.z.c10."
+}
+
 func stubDelay(req *dns.Msg) time.Duration {
 	b := behOf(req.Question[0].Name)
-	if len(b) >= 2 && b[0] == 'd' {
+	if len(b) >= 2 && b[0] == 'd' && b[1] >= '0' && b[1] <= '9' {
 		return time.Duration(vlib.Atoi(b[1:])) * time.Millisecond
 	}
 	return 0
@@ -134,6 +162,15 @@ func mkQuery(id uint16, name string, edns bool) []byte {
 			o.Option = append(o.Option, &dns.EDNS0_LOCAL{Code: 65001, Data: []byte{byte(id), byte(id >> 8)}})
 		}
 	}
+	b, _ := m.Pack()
+	return b
+}
+
+func mkTyped(id uint16, name string, qt uint16) []byte {
+	m := new(dns.Msg)
+	m.SetQuestion(name, qt)
+	m.Id = id
+	m.SetEdns0(1232, false)
 	b, _ := m.Pack()
 	return b
 }
@@ -247,7 +284,44 @@ func whyNotOwn(sent, got []byte) string {
 		r.Question[0].Qtype != q.Question[0].Qtype || r.Question[0].Qclass != q.Question[0].Qclass {
 		return "question differs from the query's"
 	}
+	if r.Question[0].Name != q.Question[0].Name {
+		return fmt.Sprintf("the question section spells the name %q, this query spelled it %q: bytes of another client's query", r.Question[0].Name, q.Question[0].Name)
+	}
 	name := q.Question[0].Name
+	if beh := behOf(name); strings.HasPrefix(beh, "v6") {
+		for _, rr := range r.Answer {
+			if !strings.EqualFold(rr.Header().Name, name) || rr.Header().Rrtype != dns.TypeAAAA {
+				return "unexpected record in a DNS64 reply"
+			}
+		}
+		return ""
+	}
+	if behOf(name) == "cn" {
+		if r.Rcode == dns.RcodeServerFailure {
+			return ""
+		}
+		if len(r.Answer) == 0 {
+			return "alias reply without the CNAME"
+		}
+		cn, isCN := r.Answer[0].(*dns.CNAME)
+		if !isCN || !strings.EqualFold(cn.Hdr.Name, name) || !strings.EqualFold(cn.Target, cnTarget(name)) {
+			return "the CNAME is not this alias's"
+		}
+		for _, rr := range r.Answer[1:] {
+			if a, isA := rr.(*dns.A); isA && q.Question[0].Qtype == dns.TypeA {
+				if !strings.EqualFold(a.Hdr.Name, cnTarget(name)) || !a.A.Equal(net.IPv4(93, 184, 216, 35)) {
+					return "the chased address is not this alias target's"
+				}
+				continue
+			}
+			t, isTxt := rr.(*dns.TXT)
+			want := txtFor(cnTarget(name))
+			if !isTxt || !strings.EqualFold(t.Hdr.Name, cnTarget(name)) || len(t.Txt) != len(want) || !strings.EqualFold(t.Txt[0], want[0]) {
+				return "the chased record is not this alias target's"
+			}
+		}
+		return ""
+	}
 	if strings.HasSuffix(strings.ToLower(name), viewZone) {
 		return viewReplyOwn(q, r)
 	}
@@ -307,9 +381,22 @@ func whyNotOwn(sent, got []byte) string {
 	return ""
 }
 
+var liveViews bool
+
 func startLive(listen bool, tweak func(*config.Config)) *srvh.Live {
-	l := srvh.Start(srvh.Opts{Handlers: []string{"recovery", "edns", "views", "cache"}, Listen: listen, Tweak: func(cfg *config.Config) {
-		viewsTweak(cfg)
+	// views decodes EVERY client query (it materializes before it looks at its zones), which takes the
+	// whole wire-born hit path out of the picture: it is only in the chain when liveViews says so
+	handlers := []string{"recovery", "edns", "dns64", "cache"}
+	if liveViews {
+		handlers = []string{"recovery", "edns", "views", "dns64", "cache"}
+	}
+	l := srvh.Start(srvh.Opts{Handlers: handlers, Listen: listen, Tweak: func(cfg *config.Config) {
+		if liveViews {
+			viewsTweak(cfg)
+		}
+		cfg.DNS64.Enabled = true
+		cfg.DNS64.Prefixes = []string{"64:ff9b::/96"}
+		cfg.DNS64.ClientNetworks = []string{"0.0.0.0/0", "::/0"}
 		if tweak != nil {
 			tweak(cfg)
 		}
@@ -324,6 +411,14 @@ func startLive(listen bool, tweak func(*config.Config)) *srvh.Live {
 
 func srvPacket(r *vlib.R, c, seq int, shared []string) []byte {
 	id := uint16(c)<<10 | uint16(seq)
+	switch r.Intn(14) {
+	case 0: // an alias, asked by everybody in their own 0x20 spelling: the cache's chase composer on hits
+		return mkTyped(id, rand0x20(r, fmt.Sprintf("alias%d-cn.z.c10.", r.Intn(2))), dns.TypeTXT)
+	case 1: // dns64: AAAA without AAAA data, the A side failing in three ways or answering
+		return mkTyped(id, fmt.Sprintf("c%d-s%d-%s.z.c10.", c, seq, vlib.Pick(r, []string{"v6nx", "v6sf", "v6nd", "v6ok"})), dns.TypeAAAA)
+	case 2: // a shared name in this client's own spelling
+		return mkTyped(id, rand0x20(r, vlib.Pick(r, shared)), dns.TypeTXT)
+	}
 	if r.Chance(1, 10) {
 		m := new(dns.Msg)
 		m.SetQuestion(bigName(c, seq, vlib.Pick(r, []int{58, 59, 60, 70})), dns.TypeA)
@@ -385,7 +480,7 @@ func runUSrv(seed uint64, steps int, dirtyPat int) (transcript []string, verdict
 	// as the edns writer) is realistic residue, produced by the real code.
 	polluteSeq := 0
 	pollute := func() {
-		if dirtyPat < 0 || len(rig.queued) > 0 {
+		if dirtyPat < 0 || len(rig.queued) > 0 || rig.u.Pending() > 0 {
 			return
 		}
 		for k := 0; k < 8; k++ {
@@ -527,9 +622,104 @@ func execCookie(mode, pattern string) vlib.Res {
 	return vlib.Res{Impl: strings.Join(seen, ","), Oracle: or, Tags: "nt"}
 }
 
+// execSpell: on the strict path of a real engine (UDP rig, or one TCP
+// connection), every name is asked three times — a miss and two hits — each time
+// by another client in another 0x20 spelling. Every reply must spell the question
+// exactly as ITS query did, carry its id, and its own answer (alias chases,
+// compressible answers, DNS64 with a failing A side included).
+func execSpell(mode string, seed uint64, kinds []string) vlib.Res {
+	l := startLive(false, nil)
+	defer l.Stop()
+	r := vlib.NewR(seed)
+	spellSeq++
+	var qs [][]byte
+	for i, k := range kinds {
+		base, qt := "", dns.TypeTXT
+		switch {
+		case k == "cn":
+			base = fmt.Sprintf("sp%d-n%d-cn.z.c10.", spellSeq, i)
+		case k == "cnseed":
+			// an alias entry that holds ONLY the CNAME (admitted under another client's spelling) and a
+			// separately cached target: later hits go through the cache's chase composer
+			base = fmt.Sprintf("sp%d-n%d-cn.z.c10.", spellSeq, i)
+			first := rand0x20(r, base)
+			am := new(dns.Msg)
+			qt = dns.TypeA
+			am.SetQuestion(first, dns.TypeA)
+			am.Response, am.RecursionAvailable = true, true
+			am.Answer = []dns.RR{&dns.CNAME{Hdr: dns.RR_Header{Name: first, Rrtype: dns.TypeCNAME, Class: dns.ClassINET, Ttl: 300}, Target: cnTarget(base)}}
+			tm := new(dns.Msg)
+			tm.SetQuestion(cnTarget(base), dns.TypeA)
+			tm.Response, tm.RecursionAvailable = true, true
+			tm.Answer = []dns.RR{&dns.A{Hdr: dns.RR_Header{Name: cnTarget(base), Rrtype: dns.TypeA, Class: dns.ClassINET, Ttl: 300}, A: net.IPv4(93, 184, 216, 35)}}
+			cache.VerifC10Seed(l.Cache, am)
+			cache.VerifC10Seed(l.Cache, tm)
+		case strings.HasPrefix(k, "v6"):
+			base, qt = fmt.Sprintf("sp%d-n%d-%s.z.c10.", spellSeq, i, k), dns.TypeAAAA
+		case k == "big":
+			base, qt = bigName(spellSeq%1000, i, 60), dns.TypeA
+		default:
+			base = fmt.Sprintf("sp%d-n%d-ok.z.c10.", spellSeq, i)
+		}
+		for rep := 0; rep < 3; rep++ {
+			c := (i + rep) % 3
+			qs = append(qs, mkTyped(uint16(c)<<10|uint16(len(qs)+1), rand0x20(r, base), qt))
+		}
+	}
+	var replies [][]byte
+	if mode == "tcp" {
+		t := server.VerifC10NewTCP(nil, l.Srv, 8)
+		var stream []byte
+		for _, p := range qs {
+			stream = binary.BigEndian.AppendUint16(stream, uint16(len(p)))
+			stream = append(stream, p...)
+		}
+		replies, _ = splitFrames(runConn(t, stream, "-", 0).out)
+	} else {
+		rig, err := newUDPRig(l.Srv, false, 2, -1)
+		if err != nil {
+			return vlib.Res{Impl: "rig-error"}
+		}
+		defer rig.close()
+		for i, p := range qs {
+			_, _ = rig.step([]string{"udp", "send", fmt.Sprint(int(p[0]) >> 2), vlib.Hex(p)})
+			_, ds := rig.step([]string{"udp", "drain"})
+			if len(ds) != 1 {
+				return vlib.Res{Impl: fmt.Sprintf("q%d:%d-replies", i+1, len(ds)), Oracle: fail("usrv/spell/reply-count", "query %d got %d replies", i+1, len(ds)), Tags: "nt"}
+			}
+			replies = append(replies, ds[0].b)
+		}
+	}
+	or := "ok"
+	out := make([]string, len(qs))
+	for i := range qs {
+		out[i] = "-"
+		if i < len(replies) {
+			if os.Getenv("VERIF_C10_DEBUG") != "" {
+				m := new(dns.Msg)
+				_ = m.Unpack(replies[i])
+				fmt.Fprintf(os.Stderr, "ASK %s id=%d\nREPLY %s\n", nameOfRaw(qs[i]), binary.BigEndian.Uint16(qs[i]), strings.ReplaceAll(m.String(), "\n", " | "))
+			}
+			out[i] = "q"
+			if why := whyNotOwn(qs[i], replies[i]); why != "" {
+				out[i] = "x"
+				if or == "ok" {
+					or = fail("usrv/spell/"+kinds[i/3]+"/not-own-bytes", "ask %d of %q: %s", i%3+1, nameOfRaw(qs[i]), why)
+				}
+			}
+		}
+	}
+	return vlib.Res{Impl: strings.Join(out, ""), Oracle: or, Tags: "nt,spell"}
+}
+
+var spellSeq int
+
 func execUSrv(f []string) vlib.Res {
 	if f[1] == "cookie" {
 		return execCookie(f[2], f[3])
+	}
+	if f[1] == "spell" {
+		return execSpell(f[2], vlib.AtoU64(f[3]), strings.Split(f[4], ","))
 	}
 	seed, steps, pat := vlib.AtoU64(f[2]), vlib.Atoi(f[3]), int(vlib.UnHex(f[4])[0])
 	ta, va := runUSrv(seed, steps, -1)
@@ -547,6 +737,9 @@ func execUSrv(f []string) vlib.Res {
 			d++
 		}
 		or = fail("usrv/residue", "the same run on scribbled slabs sent different bytes (datagram #%d of %d/%d)", d+1, len(ta), len(tb))
+		if os.Getenv("VERIF_C10_DEBUG") != "" && d < len(ta) && d < len(tb) {
+			fmt.Fprintf(os.Stderr, "A: %s\nB: %s\n", ta[d], tb[d])
+		}
 	}
 	return vlib.Res{Impl: fmt.Sprintf("datagrams=%d", len(ta)), Oracle: or, Tags: "nt"}
 }
@@ -678,6 +871,18 @@ func stressPacket(r *vlib.R, c, seq int, nShared int, st *stressStats, mine []st
 	default:
 		name = fmt.Sprintf("c%d-s%d-ok.z.c10.", c, seq)
 	}
+	switch r.Intn(30) {
+	case 0, 1:
+		return mkTyped(id, rand0x20(r, fmt.Sprintf("alias%d-cn.z.c10.", r.Intn(nShared))), dns.TypeTXT), ""
+	case 2:
+		return mkTyped(id, fmt.Sprintf("c%d-s%d-%s.z.c10.", c, seq, vlib.Pick(r, []string{"v6nx", "v6sf", "v6nd", "v6ok"})), dns.TypeAAAA), ""
+	case 3, 4:
+		return mkTyped(id, rand0x20(r, fmt.Sprintf("shared%d-d2.z.c10.", r.Intn(nShared))), dns.TypeTXT), ""
+	case 5:
+		if len(mine) > 0 {
+			return mkTyped(id, rand0x20(r, vlib.Pick(r, mine)), dns.TypeTXT), ""
+		}
+	}
 	if r.Chance(1, 16) {
 		// a reply that compresses from ~5 KB to ~1.2 KB (the Msg path: TryPack declines it)
 		m := new(dns.Msg)
@@ -687,7 +892,7 @@ func stressPacket(r *vlib.R, c, seq int, nShared int, st *stressStats, mine []st
 		b, _ := m.Pack()
 		return b, ""
 	}
-	if r.Chance(1, 12) {
+	if liveViews && r.Chance(1, 12) {
 		// a per-client static answer (views), in this client's own 0x20 spelling
 		m := new(dns.Msg)
 		m.SetQuestion(rand0x20(r, vlib.Pick(r, []string{"www." + viewZone, "www." + viewZone, "h1.wild." + viewZone})), dns.TypeA)
@@ -1071,6 +1276,9 @@ func execStress(f []string) vlib.Res {
 	if per > 1000 {
 		per = 1000
 	}
+	// every third run has views in the chain (all queries decoded); the others keep the wire-born hit path
+	liveViews = seed%3 == 0
+	defer func() { liveViews = false }()
 	l := startLive(true, func(cfg *config.Config) {
 		cfg.IngressWorkers = workers
 		cfg.IngressQueue = queue
